@@ -9,7 +9,7 @@ def parsePos : List String → Option (Pos × List String)
   | "r" :: r :: c :: rest => do let r ← r.toInt?; let c ← c.toInt?; pure (.rc r c, rest)
   | _ => none
 
-def parseOptInt (w : String) : Option (Option Int) :=
+def addrOptInt (w : String) : Option (Option Int) :=
   if w == "n" then some none else (w.toInt?).map some
 
 def showGrid (g : List (List (Int × Int))) : String :=
@@ -27,11 +27,11 @@ def handleAddr : List String → Option String
       (validate Gen.digitZeros Gen.MAX_ROW_COUNT Gen.MAX_COL_COUNT ⟨rows, cols⟩ p))
   | ["iterrows", rows, cols, a, b, c, d] => do
     let rows ← rows.toNat?; let cols ← cols.toNat?
-    let a ← parseOptInt a; let b ← parseOptInt b; let c ← parseOptInt c; let d ← parseOptInt d
+    let a ← addrOptInt a; let b ← addrOptInt b; let c ← addrOptInt c; let d ← addrOptInt d
     pure (showPyM showGrid (iterRows ⟨rows, cols⟩ a b c d))
   | ["itercols", rows, cols, a, b, c, d] => do
     let rows ← rows.toNat?; let cols ← cols.toNat?
-    let a ← parseOptInt a; let b ← parseOptInt b; let c ← parseOptInt c; let d ← parseOptInt d
+    let a ← addrOptInt a; let b ← addrOptInt b; let c ← addrOptInt c; let d ← addrOptInt d
     pure (showPyM showGrid (iterCols ⟨rows, cols⟩ a b c d))
   | _ => none
 
